@@ -324,6 +324,41 @@ static bool ledger_conflict(int a, int b) {
     return false;
 }
 
+
+// A lost wake-up leaves every photon thread parked, so every vCPU OS thread sleeps in its event engine. If some
+// OS thread of this process is runnable (state R/D) the silence may be plain CPU starvation on a loaded machine:
+// then nothing is proved (the driver re-runs the execution alone).
+#include <dirent.h>
+static bool all_os_threads_sleeping() {
+    // idle vCPUs poll (short wake-ups), so a thread counts as runnable only if it is seen in state R/D in most samples
+    int self = (int)syscall(SYS_gettid);
+    std::map<int, int> busy;
+    const int rounds = 20;
+    for (int round = 0; round < rounds; ++round) {
+        if (DIR* d = opendir("/proc/self/task")) {
+            while (auto e = readdir(d)) {
+                if (e->d_name[0] < '0' || e->d_name[0] > '9') continue;
+                int tid = atoi(e->d_name);
+                if (tid == self) continue;
+                char path[64], buf[512];
+                snprintf(path, sizeof(path), "/proc/self/task/%d/stat", tid);
+                FILE* f = fopen(path, "r");
+                if (!f) continue;
+                size_t n = fread(buf, 1, sizeof(buf) - 1, f);
+                fclose(f);
+                buf[n] = 0;
+                char* rp = strrchr(buf, ')');
+                if (rp && rp[1] == ' ' && rp[2] != 'S') busy[tid]++;
+            }
+            closedir(d);
+        }
+        struct timespec ts = {0, 40 * 1000 * 1000};
+        nanosleep(&ts, nullptr);
+    }
+    for (auto& kv : busy) if (kv.second * 3 >= rounds) return false;
+    return true;
+}
+
 static bool on_stuck(std::string& key, std::string& what, std::string& wit) {
     vh::JArr arr;
     bool proved = false;
@@ -354,6 +389,12 @@ static bool on_stuck(std::string& key, std::string& what, std::string& wit) {
         }
     }
     wit = arr.str();
+    if (proved && !all_os_threads_sleeping()) {
+        proved = false;
+        key = "runnable-threads";
+        what = "no progress, but OS threads of the process are runnable (CPU starvation suspected); ledger=" + wit;
+        return false;
+    }
     if (!proved) { key = "rangelock-workload"; what = "no progress; blocked=" + wit; }
     return proved;
 }
